@@ -182,6 +182,14 @@ def c12(prop, tier, seed):
 CHECKS["C12"] = c12
 
 
+def c13(prop, tier, seed):
+    import smallchecks
+    return smallchecks.check_c13(prop, tier, seed)
+
+
+CHECKS["C13"] = c13
+
+
 def simc(prop, tier, seed):
     import simcheck
     return simcheck.check_sim(prop, tier, seed)
@@ -255,7 +263,20 @@ META["C12"] = dict(
     design_ref="DESIGN.md section 6/C12",
     technique="TLA+ judgement spec enumerated exhaustively by TLC; differential run of all validation paths of the real code, records validated against the spec")
 
+META["C13"] = dict(
+    engine="distclamp", level="model_checking",
+    text=("DistClamp.tla models what Dist::sample and its four consumers do with whatever a sampler returns, over an ordered class domain "
+          "including NaN and the infinities; TLC checks for every (raw+start, max) pair that the sample is not NaN, >= 0, <= max when set, "
+          "timeouts <= 24 h, limits and counter values u64; every class pair is realised on the real code (Dist::sample and, through a "
+          "framework, action timeout / state limit / counter value) and judged against the spec; the samplers of all 11 families are run at "
+          "the parameter corners admitted by validation on streams with extreme prefixes under a watchdog and judged (returned, bounded draws, value class)"),
+    note="termination of rand_distr's samplers is observed, not modelled (DESIGN.md section 8); trusted: TLC, the watchdog, the class table",
+    design_ref="DESIGN.md section 6/C13",
+    technique="TLA+ spec of the clamp checked exhaustively by TLC; class-pair realisations and sampler corner runs of the real code validated against it")
+
 ENGINES = [
+    dict(name="distclamp", path="/verif/spec/DistClamp.tla", serves_properties=["C13"],
+         kind_free_text="TLA+ spec of Dist::sample and its consumers, TLC over all class pairs, dist_cases on the real samplers"),
     dict(name="validation", path="/verif/spec/Validation.tla", serves_properties=["C12"],
          kind_free_text="TLA+ well-formedness judgement, TLC enumeration of the abstract machine domain, validate_cases on the real constructors"),
     dict(name="simulator", path="/verif/spec/Simulator.tla", serves_properties=["C14", "C15", "C16", "C17", "C18", "C19"],
